@@ -36,7 +36,8 @@ pub fn repo_dir() -> PathBuf {
 /// Builds (incrementally) and returns the hooked binary. Err = infrastructure failure (exit 2).
 pub fn hooked_binary() -> Result<PathBuf, String> {
     let repo = repo_dir();
-    let target = verif_dir().join("harness").join("target").join("repo-bin");
+    // RV_REPO_BIN_TARGET: build directory override (tools/mutrun.sh keeps one across mutants)
+    let target = std::env::var_os("RV_REPO_BIN_TARGET").map(PathBuf::from).unwrap_or_else(|| verif_dir().join("harness").join("target").join("repo-bin"));
     let out = Command::new("cargo")
         .args(["build", "--release", "--offline", "--features", "verif-hooks", "--bin", "routinator", "--manifest-path"])
         .arg(repo.join("Cargo.toml"))
